@@ -2,7 +2,10 @@ module vh
 
 go 1.16
 
-require github.com/bnb-chain/tss-lib/v2 v2.0.0
+require (
+	github.com/bnb-chain/tss-lib/v2 v2.0.0
+	github.com/btcsuite/btcd/btcec/v2 v2.3.2
+)
 
 replace github.com/bnb-chain/tss-lib/v2 => /repo
 
